@@ -323,9 +323,19 @@ def run(ck, m):
         t0 = next((t for t, b_ in guards(rrs[0]) if b_ and "scroll" in norm(trace(rn, t))), None)
         if t0 is not None:
             tt = trace(rn, t0)
-            RW, RH, TW, TH = "self.rendered_size[0]", "self.rendered_size[1]", "get_terminal_size()[0]", "get_terminal_size()[1]"
-            forms = [f"{RW} > {TW} or (0 if scroll else {RH}) > {TH}", f"{RW} > {TW} or (not scroll and {RH} > {TH})", f"{RW} > {TW} or ({RH} > {TH} and not scroll)"]
-            explicit = any(same_bool(None, tt, f_) for f_ in forms)
+            # decided on a finite domain: sizes in {1, 2, 3} per axis, scroll in {T, F}; spec: too wide, or too tall unless scrolling
+            from tiv.absdom import EvUnk as _EvUnk, ev as _aev
+            import itertools as _it
+            try:
+                explicit = True
+                for rw, rh, tw, th, sc in _it.product((1, 2, 3), (1, 2, 3), (1, 2, 3), (1, 2, 3), (True, False)):
+                    env_ = {"self.rendered_size[0]": rw, "self.rendered_size[1]": rh, "self.rendered_width": rw, "self.rendered_height": rh, "get_terminal_size()[0]": tw,
+                            "get_terminal_size()[1]": th, "get_terminal_size().columns": tw, "get_terminal_size().lines": th, "scroll": sc}
+                    if bool(_aev(tt, env_)) != (rw > tw or (not sc and rh > th)):
+                        explicit = False
+                        break
+            except _EvUnk:
+                explicit = None
     ck.expect(canonical or explicit is not None, "_renderer: the size comparison is not in a recognised form")
     if canonical or explicit is not None:
         ck.ob("R3", rn, canonical or bool(explicit), "_renderer: both axes are compared with the terminal size, the height waived by *scroll*", stmt="_renderer: width always, height unless scroll")
